@@ -1506,7 +1506,8 @@ class Oracles:
             actionspace.check_rebuild(self)
         elif what in ("readable", "roundtrip") and self.P("C09"):
             self._c09_roundtrip(env.current_state)
-        elif what == "contains" and self.P("C10"):
+        elif what == "contains" and self.P("C10") and \
+                not getattr(sim, "scribbled", False):
             o = env.last_obs
             arr = o.numpy_flat() if sim.flat_obs else o.numpy()
             self._c10_obs(arr)
